@@ -15,20 +15,32 @@ CFG = dict(
                    "the result holds exactly the rows the specification prescribes, strictly ascending by key "
                    "(C05_merge_guard_partial, C05_result_sorted), order-independence under any permutation (C05_order), "
                    "untouched rows/cells (C05_untouched_*), and for two branches identity, idempotence and disjoint edits "
-                   "(C05_identity, C05_identity_left, C05_idem, C05_disjoint); the known findings F1, F2, D1-D4 as "
-                   "_refuted witnesses. Model tied to "
+                   "(C05_identity, C05_identity_left, C05_idem, C05_disjoint); command level (`wrgl merge` without "
+                   "--no-gui, model cmd_merge): a concluded merge has no unresolved record and any unresolved record - also "
+                   "one with no unresolved column - makes the command refuse (C05_cmd_committed_all_resolved, "
+                   "C05_cmd_unresolved_refused), under the guard it refuses exactly when the specification finds a "
+                   "conflict and otherwise commits the specified rows (C05_cmd_guard); the known findings F1, F2, D1-D4 "
+                   "as _refuted witnesses. Model tied to "
                    "pkg/diff + pkg/merge + cmd/wrgl merge by differential execution with an independent name-based oracle.",
         level_note="Theorems are about coq/model/{ColDiff,Merge}.v (hand transliteration); the diff is modelled by its "
                    "specification (C04), row/key sums by the cell sequences (hash injectivity), the discarded-key set "
                    "as a set (C20), the collector's sorter as stable sort + dedupe on the configured key positions (C19). "
                    "Table-level laws when a branch changes the layout or the key is not first (where the code deviates: "
                    "known findings), keyless tables, the policy 'accept the proposed ResolvedRow', column renames and the "
-                   "interactive resolution path are covered by correspondence only.",
+                   "interactive resolution path are covered by correspondence only. The command-level refusal is observed with "
+                   "TERM set to a non-existent terminal (the tview merge tool then fails to start and runMerge returns its "
+                   "error); the merge tool itself (widgets) is not modelled.",
         rule="fixed witnesses (known findings F1/F2/D1-D4, repository tests, laws); exhaustive: every pair of branches "
              "over a 2-row (id,v) base with cell alphabet {a,b} (each branch keeps/removes/edits each row, may add row 3) "
              "x 3 caller policies, plus column scripts (remove/swap/rename/add) on a 3-column base; random edit scripts "
              "(row add/remove/edit, column add/remove/reorder/rename), key at any position, composite keys, keyless, "
-             "N in {2,3}, mostly-untouched and multi-block bases; CLI merge --no-gui/--no-commit/commit+export; "
+             "N in {2,3}, mostly-untouched and multi-block bases; CLI merge --no-gui/--no-commit/commit+export, and - when "
+             "the library reports an unresolved record - `wrgl merge` and `wrgl merge --no-commit` WITHOUT --no-gui with the "
+             "merge tool unable to start (TERM names no terminal): the command must refuse and leave the branch alone "
+             "(class merge-cmd-unresolved-not-reported); stream 'removal-vs-layout' (library and CLI): one branch removes "
+             "rows, the other only drops/adds/reorders/renames a column; stream 'blockshift': multi-block bases where a "
+             "branch deletes exactly j*255 leading rows or inserts 255 rows in front and the other branch edits rows of "
+             "the shifted blocks; "
              "CompareColumns alone on random (occasionally malformed) column lists. "
              "distinct = distinct case text; non-trivial = some branch differs from the base",
         trusted=["row sum = cell sequence of the row in the table's own layout, key sum = key cells (MeowHash injective)",
